@@ -138,10 +138,12 @@ def run(replay=None):
                         "iface": [{k: r.get(k) for k in ("kind", "mode", "reserve_used", "ok", "skipped")} for r in lres if r["kind"] != "live-entry"]}
     if rc != 0:
         about = [r for r in lrows if r.get("kind") == "live-iface-about-to-call"]
-        done = [r for r in lrows if r.get("kind") in ("live-iface", "live-stub")]
-        if about and len(about) > len(done):
+        if about:
             a = about[-1]
-            if a["mode"] == "far-origin-jump":
+            if a["mode"].startswith("entry:"):
+                ck.impl_violation("installed-entry-jump-crashes", "the process dies (exit %d) on the call of %s after its entry was diverted to the requested replacement" % (rc, a["mode"][6:]),
+                                  {"about": a, "tail": lout[-600:]})
+            elif a["mode"] == "far-origin-jump":
                 ck.impl_violation("installed-far-origin-jump-crashes", "the process dies (exit %d) on the call through the FAR form of the trampoline return placed in a fresh mapping (destination: a code address of the text)" % rc,
                                   {"about": a, "tail": lout[-600:]})
             else:
